@@ -118,6 +118,8 @@ func c16(r *mon.Run) {
 		docs.J(`{"a":[1,2],"b":1}`), docs.J(`{"a":["x"],"b":"x"}`), docs.J(`{"a":[{"b":1},{"b":2}],"b":{"b":1}}`), docs.J(`{"a":{"b":[]},"b":[[],[]]}`),
 		docs.J(`{"a":["<","\u2028x","\u2029","é","\ud83d\ude00","\\u003c","\u0000","\u001f\u007f"],"b":"\u2028"}`), docs.J(`{"a":{"\u2028":"\u2029","<k>":["&"]},"b":{"b":"\u2028"}}`), docs.J(`{"a":[{"b":"\u2028","\u2029":1},{"b":"x\u2028y\u2029z"}],"b":["\u2028"]}`),
 	}
+	tdocs = append(tdocs, docs.J(`{"a":["12.5","NaN","7"],"b":"NaN"}`), docs.J(`{"a":["250","Infinity","90"],"b":"Infinity"}`), docs.J(`{"a":["inf","-inf"],"b":"-inf"}`), docs.J(`{"a":["1e400","-1e400","1"],"b":"1e400"}`), docs.J(`{"a":["NaN"],"b":["NaN"]}`),
+		docs.J(`{"a":[{"b":"Infinity"},{"b":"NaN"},{"b":"1"}],"b":{"b":"inf"}}`), docs.J(`{"a":["0x7ff0000000000000","+Inf","1e309"],"b":"+Inf"}`))
 	nt := len(templates) * len(tdocs)
 	emp := mon.Workload{Name: "empty-containers", N: nt,
 		Describe: func(i int) string { return templates[i/len(tdocs)] + " on " + ref.Canon(tdocs[i%len(tdocs)]) },
